@@ -64,7 +64,7 @@ COMPONENTS = {
 ASSUMPTIONS = [
     "rider: no fault injection; a cross-check over tree states reached by simulated treesim histories (the states the C09 model can reach with every treesim guard on); the only schedule of its own is the two-actor race of the first deleting call in 25% of the bzr runs",
     "raced calls (bzr only; the git index has no read lock to speak of): the oracle is 'a path whose add RETURNED successfully must not be deleted by that call, whatever the interleaving'; a refused add (LockContention from the dirstate lock while clean-tree holds its read lock, NoSuchFile after the deletion, anything else) leaves the path unversioned and deletable; when clean_tree itself is refused the lock nothing is demanded of it; for the rest of an unversioned directory that got versioned meanwhile (smart_add of a file inside it, add of the directory) no position; the dirstate lock itself is an OS/Rust lock outside the seam, so switches happen at the seam operations around it (tree opening, checkout LockDir, the prompt) - the window 'during the prompt' is reached through seeded start delays in virtual time, not through pre-emption inside the lock call",
-    "two actors are two processes of the simulated world but one real process, and the dirstate fcntl lock does not exclude within a process in one direction (a read lock is granted while another tree object holds the write lock; measured: LockContention between two real processes); install_tree_lock_seam gives that case the two-process outcome (LockContention for the reader) and makes taking/releasing the tree lock a scheduling point; it is active only while several actors run",
+    "two actors are two processes of the simulated world but one real process, and the dirstate fcntl lock does not exclude within a process (a read lock is granted while another tree object holds the write lock, and a write lock while another holds a read lock; between two real processes both are refused with LockContention); install_tree_lock_seam decides, at the moment the dirstate lock would be taken, as the OS does between processes (the loser gets LockContention at once: a refused add leaves the path unknown, a refused clean-tree deletes nothing) and makes taking/releasing the tree lock a scheduling point; it is active only while several actors run",
     "`.git`-file checkouts: the git directory is moved to <scratch>/gitdirs and referred to by a relative gitdir: path; it is part of the 'outside' state that must not change",
     "'detritus' is not defined by the property text; the model uses the definition of the command's help (conflict files *.THIS/*.BASE/*.OTHER, backups *~, selftest directories *.tmp) = clean_tree.is_detritus; *.orig / *.rej are generated too and are plain unknown files unless an ignore pattern matches them",
     "the model's ignore matcher covers a tiny grammar only: the default user ignore list (as suffix / prefix / exact-name rules: *~ *.a *.o *.so *.py[co] *.sw[nop] .#* [#]*# __pycache__ bzr-orphans) and tree patterns of the forms `name`, `*.ext`, `dir/name`; names are drawn from a fixed vocabulary for which these rules are exact; no `!` exceptions, no RE: patterns, no nested ignore files",
@@ -789,12 +789,18 @@ def coverage_probes(sim, lay, before, statuses, pats):
 def install_tree_lock_seam():
     """Two actors of one run are two PROCESSES of the simulated world, but one process of
     the real one, and the dirstate file lock (fcntl, taken by the Rust DirState) does not
-    exclude within a process in one direction: a read lock is granted while another tree
-    object holds the write lock (measured: refused with LockContention between two real
-    processes, granted in-process, also with -Dstrict_locks).  This seam (installed once,
-    idempotent, active only while a Sim runs several actors) gives that case the outcome
-    the OS gives two processes, and makes taking / releasing the tree lock a scheduling
-    point."""
+    exclude within a process: a read lock is granted while another tree object holds the
+    write lock (measured: refused with LockContention between two real processes, granted
+    in-process, also with -Dstrict_locks), and a write lock is granted while another tree
+    object holds a read lock (in-process only a mutter 'write lock taken w/ an open read
+    lock' unless -Dstrict_locks; soak replay C46-201039160850831: the adder's dirstate write
+    lock was taken while clean-tree held its read lock across the prompt).  This seam
+    (installed once, idempotent, active only while a Sim runs several actors) decides at the
+    moment the dirstate lock would be taken (current_dirstate() inside lock_read /
+    _lock_self_write, after the LockDir of the checkout was acquired) as the OS decides
+    between two processes - readers exclude a writer, a writer excludes everybody, the loser
+    gets LockContention at once (the dirstate lock does not wait) - and makes taking /
+    releasing the tree lock a scheduling point."""
     import breezy.bzr.workingtree_4 as w4
     from breezy import errors
 
@@ -803,7 +809,7 @@ def install_tree_lock_seam():
     cls = w4.DirStateWorkingTree
     if getattr(cls, "_verif_c46_lock_seam", False):
         return
-    real_read, real_self_write, real_unlock = cls.lock_read, cls._lock_self_write, cls.unlock
+    real_read, real_self_write, real_unlock, real_current = cls.lock_read, cls._lock_self_write, cls.unlock, cls.current_dirstate
 
     def multi_sim():
         s = getattr(CTX, "sim", None)
@@ -813,30 +819,39 @@ def install_tree_lock_seam():
         reg = s.__dict__.setdefault("_c46_tree_locks", {})
         return reg.setdefault(tree.basedir, {})
 
-    def acquired(s, tree, mode):
-        if s is not None and tree._control_files._lock_count == 1:
-            holders(s, tree)[id(tree)] = (s.current().name, mode)
+    def current_dirstate(self):
+        # lock_read / _lock_self_write call this immediately before they take the dirstate
+        # file lock (no seam operation in between): the moment the OS would decide
+        want = self.__dict__.pop("_verif_c46_want", None)
+        s = multi_sim() if want else None
+        if s is not None:
+            me = s.current().name
+            others = [mode for name, mode in holders(s, self).values() if name != me]
+            if (want == "w" and others) or (want == "r" and "w" in others):
+                raise errors.LockContention("dirstate of %s (%s-locked by another process)" % (os.path.basename(self.basedir), "write" if "w" in others else "read"))
+            holders(s, self)[id(self)] = (me, want)
+        return real_current(self)
+
+    def locking(self, s, mode, real):
+        first = s is not None and not self._control_files._lock_count
+        if first:
+            s.before_op("tree.lock_" + ("read" if mode == "r" else "write"), "t", False)
+            s.after_op("tree.lock_" + ("read" if mode == "r" else "write"), "t")
+            self._verif_c46_want = mode
+        try:
+            return real(self)
+        except BaseException:
+            if first:
+                holders(s, self).pop(id(self), None)
+            raise
+        finally:
+            self.__dict__.pop("_verif_c46_want", None)
 
     def lock_read(self):
-        s = multi_sim()
-        if s is not None and not self._control_files._lock_count:
-            s.before_op("tree.lock_read", "t", False)
-            s.after_op("tree.lock_read", "t")
-            me = s.current().name
-            if any(name != me and mode == "w" for name, mode in holders(s, self).values()):
-                raise errors.LockContention("dirstate of %s (write-locked by another process)" % os.path.basename(self.basedir))
-        r = real_read(self)
-        acquired(s, self, "r")
-        return r
+        return locking(self, multi_sim(), "r", real_read)
 
     def _lock_self_write(self):
-        s = multi_sim()
-        if s is not None and not self._control_files._lock_count:
-            s.before_op("tree.lock_write", "t", False)
-            s.after_op("tree.lock_write", "t")
-        r = real_self_write(self)
-        acquired(s, self, "w")
-        return r
+        return locking(self, multi_sim(), "w", real_self_write)
 
     def unlock(self):
         s = multi_sim()
@@ -852,6 +867,7 @@ def install_tree_lock_seam():
     cls.lock_read = lock_read
     cls._lock_self_write = _lock_self_write
     cls.unlock = unlock
+    cls.current_dirstate = current_dirstate
     cls._verif_c46_lock_seam = True
 
 
